@@ -173,20 +173,7 @@ public:
       variant<append_error_types<Variant>::template apply>::template apply,
       tuple<tag_t<set_error>, single_type_t>::template apply>;
 
-private:
-  // A source value pack that starts with tag_t<set_done> is turned back into
-  // set_done() by the receiver.
-  template <typename... Values>
-  struct is_done_pack : std::false_type {};
-  template <typename... Rest>
-  struct is_done_pack<tag_t<set_done>, Rest...> : std::true_type {};
-
-  template <typename... Packs>
-  using any_done_pack = std::disjunction<Packs...>;
-
-public:
-  static constexpr bool sends_done = sender_traits<Source>::sends_done ||
-      sender_value_types_t<Source, any_done_pack, is_done_pack>::value;
+  static constexpr bool sends_done = sender_traits<Source>::sends_done;
 
   static constexpr blocking_kind blocking = sender_traits<Source>::blocking;
 
